@@ -28,8 +28,8 @@ pub struct C15;
 
 fn depth(tier: Tier) -> usize {
     match tier {
-        Tier::Quick => 3,
-        Tier::Thorough => 4,
+        Tier::Quick => 4,
+        Tier::Thorough => 5,
     }
 }
 
